@@ -4,6 +4,7 @@ import (
 	"fmt"
 	"math"
 	"strings"
+	"unicode/utf16"
 
 	"github.com/robertkrimen/otto/token"
 )
@@ -160,8 +161,13 @@ func calculateLessThan(left Value, right Value, leftFirst bool) lessThanResult {
 		}
 		result = x < y
 	} else {
-		x, y := x.string(), y.string()
-		result = x < y
+		// 11.8.5 step 4 compares code units, not UTF-8 bytes.
+		x, y := utf16.Encode([]rune(x.string())), utf16.Encode([]rune(y.string()))
+		index := 0
+		for index < len(x) && index < len(y) && x[index] == y[index] {
+			index++
+		}
+		result = index < len(y) && (index == len(x) || x[index] < y[index])
 	}
 
 	if result {
